@@ -150,6 +150,24 @@ def check_sf_wide(sc):
     return bad
 
 
+def check_sf_steps(sc):
+    """explicit lag steps far beyond the model's (1 .. 130, on a screen a few steps tall): the ramp law a^2 (j step)^2 in every slot"""
+    bad = []
+    rows, cols = 700, 700            # (the code bounds the number of lags by the number of COLUMNS over the step)
+    ph = np.arange(rows, dtype=float)[:, None] * 0.5 + np.zeros((1, cols))
+    for step in list(range(1, 131)):
+        nb = min(5, (rows - 1) // step)
+        if nb < 2:
+            continue
+        got = np.asarray(sc.calculate_structure_function(ph.copy(), nbOfPoint=nb * step, step=step), float)
+        law = np.array([(0.5 * j * step) ** 2 for j in range(len(got))])
+        okv = ~np.isnan(got)
+        if len(got) < 2 or not (got[0] == 0) or not np.allclose(got[okv], law[okv], rtol=1e-12, atol=1e-12) or np.isnan(got[:nb]).any():
+            bad.append(("structure_function:ramp-law:large-step", dict(step=step, got=got[:6].tolist(), expected=law[:6].tolist())))
+            break
+    return bad
+
+
 def check_general_n(tp, rng):
     """frame counts outside the model's exact ones (2, 4, 8): the definition evaluated as a literal DFT in float64 (auxiliary)"""
     bad = []
@@ -194,8 +212,8 @@ def check_general_n(tp, rng):
 def check_axis(tp):
     bad = []
     n_cases = 0
-    for n in (2, 3, 4, 5, 8, 9, 16, 100, 1000):
-        for rate in (1.0, 100, 7.5, 0.25):
+    for n in list(range(1, 301)) + [1000, 4096]:
+        for rate in (1.0, 100, 7.5, 0.25, 50, 250, 500, 1e6, 1e-3, 333.3):
             got = np.asarray(tp.get_tps_time_axis(rate, n), float)
             exp = np.arange(int(n / 2)) * rate / n
             n_cases += 1
@@ -244,6 +262,8 @@ def run(run):
                 run.violation(key, detail, dict(kind="dtype-order"))
             for key, detail in check_sf_wide(sc):
                 run.violation(key, detail, dict(kind="wide"))
+            for key, detail in check_sf_steps(sc):
+                run.violation(key, detail, dict(kind="steps"))
             badg, n_gen = check_general_n(tp, np.random.default_rng(run.seed))
             for key, detail in badg:
                 run.violation(key, detail, dict(kind="general-n"))
@@ -268,6 +288,8 @@ def replay(run, case):
                 bad = check_sf(sc, case)
             elif case["kind"] == "tps":
                 bad = check_tps(tp, case)
+            elif case["kind"] == "steps":
+                bad = check_sf_steps(sc)
             elif case["kind"] == "wide":
                 bad = check_sf_wide(sc)
             elif case["kind"] == "dtype-order":
